@@ -50,20 +50,41 @@ var borrowed = map[string][]struct {
 	rules []string
 }{
 	// a point that is routed to the wrong archive or dropped is not the last value written to its slot
-	"C01": {{"C03", []string{"C03.R1", "C03.R4"}}},
+	"C01": {{"C03", []string{"C03.R1", "C03.R4"}}, {"C06", []string{"C06.R6"}}},
+	// reading the same series as the reference reader includes the fetch contract
+	"C06": {{"C04", []string{"C04.R2", "C04.R3", "C04.R4"}}},
+	// generate -fill=false must not reach the writer with an empty list (index out of range)
+	"C16": {{"C20", []string{"C20.R3"}}},
+	// the coarser intervals to recompute are aligned with the same floored modulo
+	"C02": {{"C01", []string{"C01.R1"}}},
+	"C03": {{"C01", []string{"C01.R1"}}},
+	// diff of a file with itself, and of files served by one server, rests on the blocking exclusive lock
+	"C09": {{"C13", []string{"C13.R2"}}},
+	// printed timestamps are parsed back by the server and by -from/-until
+	"C19": {{"C18", []string{"C18.R1"}}},
 	// fetch bounds are aligned by interval(): the floored-modulo and slot-placement rules
 	"C04": {{"C01", []string{"C01.R1"}}, {"C06", []string{"C06.R6"}}},
 	// copy and sum-copy write through the propagating batch writer: its gate and its stored-slot rule
-	"C08": {{"C02", []string{"C02.R3", "C02.R6"}}},
+	"C08": {{"C02", []string{"C02.R3", "C02.R6"}}, {"C09", []string{"C09.R1"}}},
 	// sum-copy stores, and sum-diff compares with, what sum computes
-	"C11": {{"C10", []string{"C10.R2", "C10.R4", "C17.R3"}}, {"C02", []string{"C02.R3", "C02.R6"}}},
+	"C11": {{"C10", []string{"C10.R2", "C10.R4", "C17.R3"}}, {"C02", []string{"C02.R3", "C02.R6"}}, {"C09", []string{"C09.R1"}}},
 	// a server URL behaves like the directory only if handlers keep no state across requests and parse every
 	// timestamp the client prints
 	"C12": {{"C17", []string{"C17.R4"}}, {"C19", []string{"C19.R2"}}},
 	// sizes derived from untrusted counts are bounded in wide arithmetic by the layout validation
 	"C15": {{"C07", []string{"C07.R4"}}},
 	// remote sum goes through the /sum handler
-	"C10": {{"C17", []string{"C17.R4"}}},
+	"C10": {{"C17", []string{"C17.R4"}}, {"C12", []string{"C12.R1", "C12.R2"}}},
+}
+
+func init() {
+	// every reading command goes through fetchTimeSeriesList / fetchRawPointsLists: the archive-selection rule
+	for _, p := range []string{"C08", "C09", "C10", "C11", "C12", "C18"} {
+		borrowed[p] = append(borrowed[p], struct {
+			from  string
+			rules []string
+		}{"C16", []string{"C16.R6"}})
+	}
 }
 
 func borrowRules(w *World, r *Report, from string, rules ...string) {
